@@ -693,6 +693,9 @@ def run_check(pid, tier, seed):
             run_live(rep)
         if cfg.get('race_search') and tier == 'thorough':
             run_live_race(rep, cfg['race_search'])
+        elif cfg.get('race_quick'):
+            # the data-race clause on every run: a small cross-section under the race detector
+            run_live_race(rep, cfg['race_quick'])
         for eng in cfg.get('engines', []):
             eng(rep)
     lines, nviol = verdict(rep)
